@@ -139,7 +139,7 @@ PROPS['C03'] = {
 UNIT_RLIMIT = {'rd': 30}
 PROPS['C09'] = {
     'level': 'proof',
-    'verus': ['bits', 'page_r', 'rd_top', 'rd'],
+    'verus': ['bits', 'page_r', 'rd_top', 'rd', 'simple', 'blob'],
     'claim': ('Termination (decreases clauses) and allocation bounds as postconditions/invariants of the real functions: every loop of the bit-stream '
               'decoder, page reader, validate_crc, QueueReader::{available,pop_point,advance,parse_byte_streams} and PointCloudReaderRaw::next has a '
               'decreases measure; each successful advance strictly advances the cursor, which is bounded by the logical file size, so the refill '
@@ -151,7 +151,8 @@ PROPS['C09'] = {
     'assumptions': [_DEV] + _RD_ASSUME + [
         'the iterators are specified up to their first Err or None (the quantifier of C09)',
         'known finding F4 (all records zero-width) is excluded by precondition and reported separately as KNOWN-FINDING',
-        'simple iterator and Blob::read are covered by units simple / blob when claimed there; XML parsing (roxmltree) time and memory are outside'],
+        'simple iterator: reserve calls of next are bounded by the number of points just decoded (precondition of the reserve shims), termination by the strictly advancing cursor; Blob::read copies at most `length` bytes and ends at end of file (unit blob)',
+        'XML parsing (roxmltree) time and memory are outside'],
 }
 
 PROPS['C08'] = {
@@ -286,6 +287,7 @@ PROPS['C02'] = {
 TRUSTED_ALLOW['simple'] = TRUSTED_ALLOW['rd'] | {
     'external_body:to_f64', 'external_body:to_i64', 'external_body:convert_to_cartesian', 'external_body:convert_to_spherical',
     'external_body:convert_intensity', 'external_body:transform_point', 'external_body:shim_move_all', 'external_body:normalize_value',
+    'external_body:shim_reserve_vec', 'external_body:shim_reserve_deque',
 }
 UNIT_RLIMIT['simple'] = 40
 PROPS['C05'] = {
